@@ -476,18 +476,18 @@ func run(repo, dir string, seed uint64, tier string) error {
 	}
 	out := vl.NewOut(dir)
 	r := vl.NewRng(seed)
-	nRandom, perRule := 11, 1
+	nRandom, perRule, crashOnRandom := 11, 1, false
 	if tier == "thorough" {
-		nRandom, perRule = 99, 2
+		nRandom, crashOnRandom = 99, true
 	}
 	if v := os.Getenv("VERIF_C04_BASES"); v != "" { // development aid
 		fmt.Sscan(v, &nRandom)
 	}
 	var cases []*Case
-	cases = append(cases, buildCases("minimal", minimalBase, r, true, 0)...)
+	cases = append(cases, buildCases("minimal", minimalBase, r, true, 0, true)...)
 	for k := 0; k < nRandom; k++ {
 		s := seed*1000003 + uint64(k)*7919 + 17
-		cases = append(cases, buildCases(fmt.Sprintf("seed:%d", s), func() *GProg { return genBase(s) }, r, false, perRule)...)
+		cases = append(cases, buildCases(fmt.Sprintf("seed:%d", s), func() *GProg { return genBase(s) }, r, false, perRule, crashOnRandom)...)
 	}
 	jobs := make([]*job, len(cases))
 	root := filepath.Join(dir, "cases")
